@@ -193,7 +193,7 @@ def procedure_tables() -> dict[str, list[str]]:
 	return out
 
 
-def parser_tables() -> dict[str, list[str]]:
+def parser_tables() -> tuple[dict[str, list[str]], dict[str, bool]]:
 	path = os.path.join(REPO, 'rogw/tranp/implements/syntax/lark/parser.py')
 	with open(path, encoding='utf-8') as f:
 		tree = ast.parse(f.read())
@@ -202,9 +202,19 @@ def parser_tables() -> dict[str, list[str]]:
 	if len(mem_if) != 1:
 		raise TranslateError('SyntaxParserOfLark.__load_entry: in-memory branch `if not self.__sources.exists(source_path)` not found')
 	body = mem_if[0].body
+	# the text handed to lark: the provider's text as it is (pinned tree) or through __load_source (completes a missing final line feed)
+	loaders = {'parser.parse(self.__source_provider(module_path))': False, 'parser.parse(self.__load_source(module_path))': True}
+	used: set[bool] = set()
 
 	def is_parse_return(s: ast.stmt) -> bool:
-		return isinstance(s, ast.Return) and 'parser.parse(self.__source_provider(module_path))' in ast.unparse(s)
+		if not isinstance(s, ast.Return):
+			return False
+		text = ast.unparse(s)
+		hit = [v for k, v in loaders.items() if k in text]
+		if len(hit) != 1:
+			return False
+		used.add(hit[0])
+		return True
 
 	if len(body) == 1 and is_parse_return(body[0]):
 		mem: list[str] = []
@@ -218,7 +228,16 @@ def parser_tables() -> dict[str, list[str]]:
 	t = _only_try(inst[0], '__load_entry.instantiate')
 	if not (len(t.body) == 1 and is_parse_return(t.body[0])):
 		raise TranslateError('SyntaxParserOfLark.__load_entry.instantiate: try body is not the single parse call')
-	return {'parserDiskHandlers': _handlers(t, '__load_entry[on-disk]', ()), 'parserMemHandlers': mem}
+	if len(used) != 1:
+		raise TranslateError('SyntaxParserOfLark.__load_entry: the two branches load the source differently')
+	completes = used.pop()
+	if completes:
+		ls = _find_func(tree, 'SyntaxParserOfLark', '__load_source')
+		text = ' ; '.join(ast.unparse(s) for s in ls.body if not isinstance(s, ast.Expr))
+		want = "source = self.__source_provider(module_path) ; return source if source.endswith('\\n') else f'{source}\\n'"
+		if text != want:
+			raise TranslateError(f'SyntaxParserOfLark.__load_source: unrecognised body: {text}')
+	return {'parserDiskHandlers': _handlers(t, '__load_entry[on-disk]', ()), 'parserMemHandlers': mem}, {'sourceCompletesNewline': completes}
 
 
 def interactive_tables() -> dict[str, list[str]]:
@@ -372,6 +391,9 @@ def render(errs: list[tuple[str, str, bool]], bis: list[tuple[str, str | None]],
 	for name in ['interactiveInnerCatch', 'interactiveOuterCatch']:
 		L.append(f'def {name} : List Atom := [' + ', '.join(tables[name]) + ']')
 	L.append('')
+	L.append('/-- SyntaxParserOfLark.__load_source appends a line feed to a text that does not end in one (both branches) -/')
+	L.append(f"def sourceCompletesNewline : Bool := {'true' if flags['sourceCompletesNewline'] else 'false'}")
+	L.append('')
 	L.append('/-- ErrorRender.__build_quotation returns [] for a node without a position (begin line or column < 1) -/')
 	L.append(f"def quotationSpanGuard : Bool := {'true' if flags['quotationSpanGuard'] else 'false'}")
 	L.append('')
@@ -385,11 +407,12 @@ def render(errs: list[tuple[str, str, bool]], bis: list[tuple[str, str | None]],
 def generate() -> list[dict[str, Any]]:
 	errs = errors_hierarchy()
 	bis = builtin_hierarchy()
-	tables = {**procedure_tables(), **parser_tables(), **interactive_tables()}
+	ptables, pflags = parser_tables()
+	tables = {**procedure_tables(), **ptables, **interactive_tables()}
 	for need in ('Exception', 'BaseException', 'TypeError', 'AssertionError', 'KeyboardInterrupt'):
 		if need not in [k for k, _ in bis]:
 			raise TranslateError(f'builtin {need} missing')
-	flags = render_tables()
+	flags = {**render_tables(), **pflags}
 	changed = write_if_changed(OUT, render(errs, bis, tables, flags))
 	return [{
 		'file': os.path.relpath(OUT, os.path.dirname(GENERATED_DIR)),
@@ -399,6 +422,7 @@ def generate() -> list[dict[str, Any]]:
 		'builtin_classes': len(bis),
 		'handlers': {k: len(v) for k, v in tables.items()},
 		'mem_branch_wrapped': bool(tables['parserMemHandlers']),
+		'source_completes_newline': flags['sourceCompletesNewline'],
 		'quotation_span_guard': flags['quotationSpanGuard'],
 		'message_str_fallback': flags['messageStrFallback'],
 		'changed': changed,
